@@ -218,6 +218,28 @@ func TestReferenceGrid(t *testing.T) {
 	if lay[0][0].Index != 0 || lay[1][0].Index != 1 || lay[0][1].Index != 2 || lay[0][3].Index != 4 {
 		t.Errorf("domino order around grid: %+v %+v %+v %+v", lay[0][0], lay[1][0], lay[0][1], lay[0][3])
 	}
+	// 12 and 27 layers: 2L+6 is a multiple of 15, the symbol grows by 6 modules
+	// because a new pair of grid lines appears directly inside the outermost
+	// module ring: lines at centre +-32 (12 layers: 1 and 65 of 67) resp.
+	// centre +-64 (27 layers: 1 and 129 of 131).
+	for _, l := range []int{12, 27} {
+		lay := Layout(false, l)
+		dim := len(lay)
+		for _, g := range []int{1, dim - 2} {
+			for k := 0; k < dim; k++ {
+				want := KLight
+				if k%2 == 1 { // centre (33 / 65) is odd
+					want = KDark
+				}
+				if lay[g][k].Kind != want || lay[k][g].Kind != want {
+					t.Errorf("%d layers: grid module (%d,%d): %v / %v, want %v", l, g, k, lay[g][k].Kind, lay[k][g].Kind, want)
+				}
+			}
+		}
+		if lay[0][0].Index != 0 || lay[2][0].Index != 1 || lay[0][2].Index != 2 {
+			t.Errorf("%d layers: outer layer must straddle the grid line", l)
+		}
+	}
 	// full 4 layers (31x31): only the centre lines
 	lay = Layout(false, 4)
 	for k := 0; k < 31; k++ {
